@@ -297,6 +297,9 @@ def s1_discriminant():
     yield 'disc/u8_extreme_data', en('E', [variant('A', 'Unnamed', unnamed(1, [['T']]), disc=(['254'], 254)), variant('B')], [repr_attr('u8'), dw(['PartialOrd', 'PartialEq'])])
     yield 'disc/raw_names', en('E', [variant('r#type', 'Unit', [], D, disc=(['2'], 2)), variant('r#fn'), variant('C')], [dw(['PartialOrd', 'Default'])])
     yield 'disc/raw_names_repr', en('E', [variant('r#type', 'Unit', [], D, disc=(['2'], 2)), variant('r#fn'), variant('C')], [repr_attr('i8'), dw(['Ord', 'PartialOrd', 'Eq', 'PartialEq', 'Default'])])
+    yield 'disc/case_names', en('E', [variant('Http', 'Unit', [], D, disc=(['1'], 1)), variant('HTTP', disc=(['4'], 4)), variant('ab_C'), variant('Ab_c')], [dw(['PartialOrd', 'Default'])])
+    yield 'disc/case_names_ord', en('E', [variant('Http', 'Unit', [], D), variant('HTTP', disc=(['4'], 4)), variant('http')], [dw(['Ord', 'PartialOrd', 'Eq', 'PartialEq', 'Default', 'Clone'])])
+    yield 'disc/case_names_inc', en('E', [variant('Http', disc=(['1'], 1)), variant('HTTP', disc=(['4'], 4)), variant('Ftp'), variant('Unknown', 'Unit', [], [sub('incomparable')])], [dw(['PartialEq', 'PartialOrd'])])
     yield 'disc/generic_where', en('E', [variant('A', 'Unnamed', unnamed(1, [['T']])), variant('B', 'Unnamed', unnamed(1, [['U']]))], [dw(['PartialOrd'], ['T'])],
                                     gen=generics([('Lt', 'a', []), tparam('T', ['Clone']), tparam('U', [], ['u8']), ('Const', 'N', ['usize'], [])], ([['U', ':', "'a"]], True)))
     yield 'disc/skip_empty', en('E', [variant('A', 'Unnamed', unnamed(1, [['T']], [[sub('skip')]])), variant('B', 'Unnamed', unnamed(1, [['T']])), variant('C', 'Unnamed', unnamed(1, [['T']]))], [dw(['PartialOrd', 'Ord', 'PartialEq', 'Eq'])])
